@@ -1,24 +1,25 @@
 (* Conversions between the extracted inductive numbers and OCaml/Zarith numbers, plus small helpers.
    Trusted glue. *)
+module ZZ = Z
 open Model
 
-let rec z_of_pos (p : positive) : Z.t =
+let rec z_of_pos (p : positive) : ZZ.t =
   match p with
-  | XH -> Z.one
-  | XO q -> Z.shift_left (z_of_pos q) 1
-  | XI q -> Z.succ (Z.shift_left (z_of_pos q) 1)
+  | XH -> ZZ.one
+  | XO q -> ZZ.shift_left (z_of_pos q) 1
+  | XI q -> ZZ.succ (ZZ.shift_left (z_of_pos q) 1)
 
-let rec pos_of_z (z : Z.t) : positive =
-  if Z.equal z Z.one then XH
-  else if Z.is_even z then XO (pos_of_z (Z.shift_right z 1))
-  else XI (pos_of_z (Z.shift_right z 1))
+let rec pos_of_z (z : ZZ.t) : positive =
+  if ZZ.equal z ZZ.one then XH
+  else if ZZ.is_even z then XO (pos_of_z (ZZ.shift_right z 1))
+  else XI (pos_of_z (ZZ.shift_right z 1))
 
-let z_of_n (n : n) : Z.t = match n with N0 -> Z.zero | Npos p -> z_of_pos p
-let n_of_z (z : Z.t) : n = if Z.sign z <= 0 then N0 else Npos (pos_of_z z)
-let n_of_string s = n_of_z (Z.of_string s)
-let string_of_n n = Z.to_string (z_of_n n)
-let n_of_int i = n_of_z (Z.of_int i)
-let int_of_n n = Z.to_int (z_of_n n)
+let z_of_n (n : n) : ZZ.t = match n with N0 -> ZZ.zero | Npos p -> z_of_pos p
+let n_of_z (z : ZZ.t) : n = if ZZ.sign z <= 0 then N0 else Npos (pos_of_z z)
+let n_of_string s = n_of_z (ZZ.of_string s)
+let string_of_n n = ZZ.to_string (z_of_n n)
+let n_of_int i = n_of_z (ZZ.of_int i)
+let int_of_n n = ZZ.to_int (z_of_n n)
 
 let rec nat_of_int i : nat = if i <= 0 then O else S (nat_of_int (i - 1))
 let rec int_of_nat (n : nat) = match n with O -> 0 | S m -> 1 + int_of_nat m
